@@ -1,0 +1,47 @@
+//go:build verif
+
+package parser
+
+import "sync"
+
+// VerifHook, when set, is called at every synchronisation point of the
+// lexer/parser pair (build tag verif only; see /verif/DESIGN.md).
+// id numbers the lexers in order of creation, pt names the point and n
+// carries one cheap scalar (token type, counter, ...).
+var VerifHook func(id int, pt string, n int)
+
+var verifIDs struct {
+	sync.Mutex
+	m map[interface{}]int
+	n int
+}
+
+// VerifReset forgets all lexer ids.
+func VerifReset() {
+	verifIDs.Lock()
+	verifIDs.m = nil
+	verifIDs.n = 0
+	verifIDs.Unlock()
+}
+
+func verifPoint(x interface{}, pt string, n int) {
+	hook := VerifHook
+	if hook == nil {
+		return
+	}
+	verifIDs.Lock()
+	if verifIDs.m == nil {
+		verifIDs.m = make(map[interface{}]int)
+	}
+	id, ok := verifIDs.m[x]
+	if !ok {
+		if l, isLexer := x.(*lexer); isLexer {
+			verifIDs.n++
+			id = verifIDs.n
+			verifIDs.m[l] = id
+			verifIDs.m[&l.heredoc] = id
+		}
+	}
+	verifIDs.Unlock()
+	hook(id, pt, n)
+}
